@@ -150,6 +150,10 @@ def build():
     enum("ETr0", [var("T", shape="unit", transient=True), var("A", shape="unit"), var("B", [F("field0", u8)], shape="tuple")])
     enum("ETr1", [var("A", shape="unit"), var("T", [F("field0", u8)], shape="tuple", transient=True), var("B", shape="unit")])
     enum("ETr2s", [var("B", shape="unit"), var("A", shape="unit"), var("T", shape="unit", transient=True)], True)
+    # sorted constructors whose transient one changes position under the sort (declaration slot 1 -> index 0)
+    enum("ETr3s", [var("Write", [F("n", u8)]), var("Flush", [F("pending", u8)], transient=True), var("Read", shape="unit")], True)
+    enum("ETr4s", [var("Zeta", shape="unit", transient=True), var("Beta", [F("field0", u8)], shape="tuple"),
+                   var("Alpha", shape="unit", transient=True), var("Gamma", shape="unit")], True)
     enum("EEv", [var("A", [F("a", u8), F("n", i32)], [("add", "n", "z5")]),
                  var("B", [F("field0", u8), F("field1", ("opt", s))], [("opt", "field1")], shape="tuple"),
                  var("C", shape="unit")])
@@ -196,6 +200,12 @@ def build():
     ]
     for i, (fs, st) in enumerate(h2):
         rec(f"H2v{i}", fs, st)
+    # a history on an enum VARIANT, compiled version by version (the variant's own metadata static)
+    enum("HEv0", [var("A", [F("a", u8)]), var("B", shape="unit")])
+    enum("HEv1", [var("A", [F("a", u8), F("n", i32)], [("add", "n", "z5")]), var("B", shape="unit")])
+    enum("HEv2", [var("A", [F("a", ("opt", u8)), F("n", i32)], [("add", "n", "z5"), ("opt", "a")]), var("B", shape="unit")])
+    enum("HEv3", [var("A", [F("a", ("opt", u8)), F("n", i32), F("s", ("opt", s))],
+                      [("add", "n", "z5"), ("opt", "a"), ("add", "s", "(0)")]), var("B", shape="unit")])
     # seeded random declarations over the small vocabulary
     rng = random.Random(20260930)
     vocab = [u8, i32, u64, s, b, ch, ("opt", u8), ("opt", s), ("seq", "vec", 0, u8), ("seq", "vec", 0, s),
